@@ -163,10 +163,13 @@ def check_transparent(rep, fl, rule="R18.1"):
     hc = facts.body("<TransparentKeyBuilder<K> as KeyBuilder>::hash_conflict")
     rep.check(norm(return_expr(hc)) == ("const", 0, "u64"), rule, fl, hc, "hash_conflict", "hash_conflict = 0 (index alone identifies integer keys)", "hash_conflict returns %s" % show(norm(return_expr(hc))))
     bk = facts.body("KeyBuilder::build_key")
-    e = norm(return_expr(bk))
-    ok = e[0] == "agg" and e[1] == "tuple" and is_call(e[3][0], "KeyBuilder::hash_index") and is_call(e[3][1], "KeyBuilder::hash_conflict") and \
+    # (every return of it: a second return that answers something else for some keys - a wildcard 0 in the conflict
+    # position, say - makes those keys act on whichever colliding key is resident)
+    es = [norm(x) for x in return_exprs(bk)]
+    pair = lambda e: e[0] == "agg" and e[1] == "tuple" and len(e[3]) == 2 and is_call(e[3][0], "KeyBuilder::hash_index") and is_call(e[3][1], "KeyBuilder::hash_conflict") and \
         e[3][0][2] == (V("self"), V("k")) and e[3][1][2] == (V("self"), V("k"))
-    rep.check(ok, rule, fl, bk, "build_key", "build_key(k) = (hash_index(k), hash_conflict(k))", "build_key returns %s" % show(e))
+    ok = bool(es) and all(pair(e) for e in es)
+    rep.check(ok, rule, fl, bk, "build_key", "build_key(k) = (hash_index(k), hash_conflict(k))", "build_key returns %s" % "; ".join(show(e) for e in es if not pair(e))[:300])
 
 
 def check_purity(rep, fl, rule="R18.2"):
